@@ -36,15 +36,33 @@ impl Check for C15 {
          non-trivial = distinct case with >= 2 hook sites of >= 2 tags and >= 1 inspected-but-unrewritten operation after the first hook site"
             .into()
     }
-    fn eval(&self, case: &Value, _ctx: &mut Ctx) -> Outcome {
+    fn eval(&self, case: &Value, ctx: &mut Ctx) -> Outcome {
         let a = match prepare(case) {
             Pre::Ready(a) => a,
             Pre::Done(o) => return o,
         };
-        let (_, cfg, file) = case_parts(case);
+        let (src, cfg, file) = case_parts(case);
         let mut classes = tags_of(case);
         classes.push(format!("verbosity:{}", cfg.verbosity));
         let rw::Outcome::Ok(v) = &a.outcome else { return Outcome::skip("no result") };
+        // package level (sampled): the metrics of every response name the file of its own call, also when the same text
+        // comes again under the same base name in another directory
+        if std::env::var("VERIF_NO_NODE").is_err() && crate::engine::hash_str(&src) % 24 == 0 && std::path::Path::new(&file).is_absolute() {
+            let req = json!({"cmd": "package", "op": "metricsfile", "code": src, "file": file, "native": v, "config": cfg.json});
+            match node::call(ctx, &req) {
+                Ok(r) => {
+                    if let Some(e) = r.get("error") {
+                        return Outcome::inconclusive(format!("package worker: {}", e.as_str().unwrap_or("").chars().take(80).collect::<String>()));
+                    }
+                    for k in ["cache", "nocache"] {
+                        if r[k]["ok"] != json!(true) {
+                            return Outcome::fail("package-metrics-file", format!("{k} rewriter: metrics.file does not match the call: {}", r[k]));
+                        }
+                    }
+                }
+                Err(e) => return Outcome::inconclusive(format!("node worker: {e}")),
+            }
+        }
         let m = &v["metrics"];
         if m.is_null() {
             return Outcome::fail("metrics-missing", "result carries no metrics");
@@ -216,6 +234,35 @@ impl Check for C12 {
             .into()
     }
     fn eval(&self, case: &Value, ctx: &mut Ctx) -> Outcome {
+        if let Some(n) = case["huge"].as_u64() {
+            // a bundle of several megabytes (kept as a recipe, not as text): the result of a modified file still carries
+            // code, prologue, hooks and the embedded map - checked on the text, without parsing 12 MB of output
+            let (_, cfg, file) = case_parts(case);
+            let mut src = String::with_capacity(n as usize * 200);
+            for i in 0..n {
+                src.push_str(&format!("function module{i}(exports, dep) {{ const name = dep.name + '-{i}'; exports.id = `m${{name}}`; return name.trim() + dep.suffix; }}\n"));
+            }
+            return match rw::rewrite_simple(&cfg.json, &src, &file) {
+                rw::Outcome::Ok(v) => {
+                    let content = v["content"].as_str().unwrap_or("");
+                    if v["metrics"]["status"] != json!("modified") {
+                        return Outcome::fail("huge-not-modified", "a bundle full of enabled operations is reported not modified");
+                    }
+                    let Some((body, payload)) = split_trailer(content) else {
+                        return Outcome::fail("modified-without-trailer", format!("a source of {} bytes is reported modified but its content ({} bytes) does not end with the embedded map", src.len(), content.len()));
+                    };
+                    if smap::decode_base64(&payload).and_then(|b| serde_json::from_slice::<Value>(&b).ok()).is_none() {
+                        return Outcome::fail("modified-without-trailer", "trailer payload is not base64 of JSON");
+                    }
+                    if !body.contains("_ddiast.") || !body.contains("typeof _ddiast") {
+                        return Outcome::fail("modified-without-hook", "huge modified file without hooks or prologue");
+                    }
+                    Outcome::pass(true, vec!["huge-file".into()])
+                }
+                rw::Outcome::Err(e) => Outcome::fail("huge-error", format!("error for a plain big file: {}", e.chars().take(100).collect::<String>())),
+                rw::Outcome::Panic(_) => Outcome::skip("rewriter panicked (C13)"),
+            };
+        }
         let (src, cfg, file) = case_parts(case);
         let classes = tags_of(case);
         let config = rw::make_config(&cfg.json);
@@ -752,7 +799,33 @@ fn map_variants(t: &mut Tape) -> (String, Vec<(String, ReadOutcome)>, bool) {
         2 => ("\n//# sourceMappingURL=ext.js.map".into(), vec![("ext.js.map".into(), ReadOutcome::Bytes(good_map.into()))], false),
         3 => ("\n//# sourceMappingURL=ext.js.map".into(), vec![], false),
         4 => ("\n//# sourceMappingURL=ext.js.map".into(), vec![("ext.js.map".into(), ReadOutcome::Fail(*t.pick(&kinds)))], false),
-        5 => ("\n//# sourceMappingURL=data:application/json;base64,!!!notbase64".into(), vec![], false),
+        5 => {
+            if t.flag() {
+                ("\n//# sourceMappingURL=data:application/json;base64,!!!notbase64".into(), vec![], false)
+            } else {
+                // map files in other encodings / with byte order marks, also cut in the middle of a code unit
+                let json = br#"{"version":3,"sources":["o.ts"],"names":[],"mappings":"AAAA"}"#;
+                let mut bytes: Vec<u8> = match t.below(4) {
+                    0 => vec![0xFF, 0xFE],
+                    1 => vec![0xFE, 0xFF],
+                    2 => vec![0xEF, 0xBB, 0xBF],
+                    _ => vec![0xFF, 0xFE, 0x00, 0x00],
+                };
+                let le = bytes[0] == 0xFF;
+                if bytes.len() == 3 {
+                    bytes.extend_from_slice(json);
+                } else {
+                    for b in json.iter() {
+                        if le { bytes.push(*b); bytes.push(0); } else { bytes.push(0); bytes.push(*b); }
+                    }
+                }
+                let cut = t.below(4);
+                for _ in 0..cut {
+                    bytes.pop();
+                }
+                ("\n//# sourceMappingURL=ext.js.map".into(), vec![("ext.js.map".into(), ReadOutcome::Bytes(bytes))], false)
+            }
+        }
         6 => (format!("\n//# sourceMappingURL=data:application/json;base64,{}", b64("{not json")), vec![], false),
         7 => (
             format!("\n//# sourceMappingURL=data:application/json;base64,{}", b64(r#"{"version":3,"sections":[{"offset":{"line":0,"column":0},"map":{"version":3,"sources":["a"],"names":[],"mappings":"AAAA"}}]}"#)),
